@@ -49,6 +49,8 @@ def _graphs():
     G.append(("diamond", top, [A3, B2]))
     pre = ("ds", "pre", {"params": [inner, ("opt", "B", ("val", 0))], "options": {"A": 9}, "default_options": {"B": 7}, "effects": ["ep"]})
     G.append(("preset", pre, [A3, B2]))
+    prec = ("ds", "prec", {"params": [inner, ("opt", "B", ("val", 0))], "options": {"A": 9}, "default_options": {"B": 7}, "effects": ["ep", "ep2"], "callback": ("fn", "cb"), "factory": "chain"})
+    G.append(("preset-factory-chain", prec, [A3, B2]))
     m = ("ds", "mp", {"params": [("apply", ("mapvalues", inner, [("A", ("opt", "M", ("val", [1, 2])))]), ("fn", "f_list"))], "effects": ["emp"]})
     G.append(("map", m, [("M", [ABSENT, [2, 3]])]))
     ov = ("ds", "ov", {"params": [("opt", "A")], "dispatch": ("optkey", "D"), "overloads": [("x", ("ds", "implx", {"params": [("opt", "B", ("val", 0))], "effects": ["ex"]}))], "effects": ["eo"]})
